@@ -855,6 +855,8 @@ class Data(BaseCartesianData):
         if component_id in self._components:
             self._components.pop(component_id)
             self._removed_derived_that_depend_on(component_id)
+            # masks cached for states that use the removed attribute are no longer valid
+            clear_mask_caches()
             if self.hub:
                 msg = DataRemoveComponentMessage(self, component_id)
                 self.hub.broadcast(msg)
@@ -1105,6 +1107,11 @@ class Data(BaseCartesianData):
 
         is_present = component_id in self._components
         self._components[component_id] = component
+
+        if is_present:
+            # the values behind an existing attribute were replaced: masks
+            # cached for states that use it are no longer valid
+            clear_mask_caches()
 
         if self.hub and not is_present:
             msg = DataAddComponentMessage(self, component_id)
